@@ -1,8 +1,24 @@
+/- C02 (task W): BEHZ `bfvMultiply` of the MODEL, end to end.  All helper names carry the prefix `c02w_`.
+
+   W1  `bfvMultiply_ok` / `bfvMultiply_canon`: for coefficient-form operands of ANY sizes ≥ 1 with canonical polynomials at a level
+       satisfying `MulOK`, the model returns `.ok`, the result has size a+b−1, is canonical, and every residue equals the closed
+       form `c02w_mulVal` (lazy NTT ∘ dyadic tensor ∘ INTT = negacyclic products in q and in Bsk, ·t, fast floor, Shenoy–Kumaresan).
+       Refusals: `bfvMultiply_refuse_ntt`, `bfvMultiply_refuse_empty`.
+       Bundles: `c02w_ToolMulOK` (constants of `RNSTool`), `MulOK` (level); both DERIVED from the constructors:
+       `c02w_toolMulOK_of_new` (from `RNSTool.new`, t ≠ 0, |q| ≤ 62, auxiliary moduli well formed and ≥ 2^32 — needed for
+       `ckSub b m̃` in `sm_mrq`), `c02w_mulOK_of_new` (plus `RNSBase.new`, `NTTTables.new` for the Bsk tables).
+   W2  `bfvLift_spec` (lifted operand X ≡ input mod every q_i, 2·2^32·|X| ≤ Q(2^32 + 2|q|)), `bfvMultiply_coeff`: every returned
+       residue is (⌊t·Z_k[c]/Q⌋ − α) mod q_i with ONE α < |q| per coefficient, Z_k = Σ_{x+y=k} X_x ⋆ Y_y over ℤ[X]/(X^N+1),
+       under the explicit window `c02w_Window`: t·min(n1,n2)·N·Q + 2|q| + 2|B|·B ≤ B·m_sk, which follows from the sizing rule
+       of `RNSTool.new` (`c02w_window_of_new`: auxiliary moduli ≥ 2^61 − 2^54, min(n1,n2)·N ≤ 2^30, t.value < 2^t.bits).
+   W3  `bfvMultiply_phase` (ring form): in any commutative ring with ξ^N = −1 and any secret s,
+       Q·phase_s(D) + phase_s(E) = t·phase_s(X)·phase_s(Y), D the exact lifts of the outputs, 0 ≤ E_k[c] < |q|·Q. -/
 import Heathcliff.Model.Evaluator
 import Heathcliff.Proofs.C01P
 import Heathcliff.Proofs.C02V
 import Heathcliff.Proofs.C10H
 import Heathcliff.Proofs.C10I
+import Heathcliff.Proofs.C07L
 import Mathlib.Algebra.BigOperators.ModEq
 import Mathlib.Algebra.Order.BigOperators.Group.Finset
 import Mathlib.Tactic.Ring
@@ -1150,7 +1166,8 @@ theorem c02w_base_q_of_list {b : RNSBase} {ms : List Modulus} (hb : b.base = ms.
 theorem c02w_toolMulOK_of_new {n : Nat} {q : RNSBase} {t : Modulus} {aux : List Modulus} {r : RNSTool}
     (hq : q.WF) (hq62 : q.size ≤ 62) (ht0 : ¬ t.value = 0) (haux : ∀ m ∈ aux, m.WF ∧ 2^32 ≤ m.value)
     (h : RNSTool.new n q t aux = .ok r) :
-    c02w_ToolMulOK r ∧ r.n = n ∧ r.baseQ = q := by
+    c02w_ToolMulOK r ∧ r.n = n ∧ r.baseQ = q ∧
+      r.baseB.size = baseBSize q.size t.bits (bitCount q.prod) ∧ (∀ i, i < r.baseBsk.size → r.baseBsk.q i ∈ aux) := by
   obtain ⟨mTilde, baseB, baseBsk, bMt, bMsk, pbq, ipq, imt, tb, tq, pqb, hq1, _, hlen, hmt, hbB, hbBsk, hqToBsk, hbMt,
     hqToMt, hbToQ, hbMsk, hbToMsk, hpbq, hipq, htb, hinvB, himt, htq, hneg, hpqb,
     rn, rq, rB, rBsk, rmt, rmsk, rpbq, ripq, rimt, rpqb⟩ := c02w_new_inv h ht0
@@ -1268,7 +1285,7 @@ theorem c02w_toolMulOK_of_new {n : Nat} {q : RNSBase} {t : Modulus} {aux : List 
     omega
   refine ⟨⟨by rw [rq]; exact hq, by rw [rB]; exact hBwf, by rw [rBsk]; exact hBskwf, ?_, ?_, ?_,
     by rw [rmt]; exact hmtwf, by rw [rmt]; exact hmtv, by rw [rq, rBsk]; exact hqToBsk, ?_, by rw [rB, rq]; exact hbToQ, ?_, ?_, ?_, ?_, ?_⟩,
-    rn, rq⟩
+    rn, rq, by rw [rB]; exact hBsz, by rw [rBsk]; exact hBskmem⟩
   · rw [rBsk, rB, hBsksz, hBsz]
   · intro i hi; rw [rB, hBsz] at hi; rw [rBsk, rB]; exact hBskq i hi
   · rw [rBsk, rB, rmsk, hBsz]; exact hBsklast
@@ -1307,57 +1324,11 @@ theorem c02w_mulOK_of_new {l : Level} {T : Array NTTTables} {q : RNSBase} {aux :
   have hqs : q.size = l.qs.size := by unfold RNSBase.size; rw [hqbase]
   have ht2 := ht.two_le
   have ht61 := ht.lt
-  obtain ⟨h1, h2, h3⟩ := c02w_toolMulOK_of_new hqwf (by omega) (by omega) haux h
+  obtain ⟨h1, h2, h3, _, _⟩ := c02w_toolMulOK_of_new hqwf (by omega) (by omega) haux h
   refine ⟨hl, h2, by rw [h3, hqbase], by omega, h1, fun i hi => ?_⟩
   obtain ⟨pr, root0, hr, hnew⟩ := hT i hi
   obtain ⟨w1, w2, w3, _⟩ := NTTTables.new_wf_u64 (h1.bskwf.mwf i hi) hk hr hnew
   exact ⟨w1, w3, w2⟩
-
-/-! ## W1 theorems (restated in the final section) -/
-
-/-- W1 (totality, shape, closed form).  For coefficient-form operands of ANY sizes ≥ 1 whose polynomials are canonical at a level
-    satisfying `MulOK`, `bfvMultiply` succeeds (no overflow / out-of-range branch is reachable); the result has
-    `size a + size b − 1` canonical polynomials, stays in coefficient form, keeps the correction factor, and every residue is the
-    closed form `c02w_mulVal`. -/
-theorem bfvMultiply_ok {l : Level} {T : Array NTTTables} (hm : MulOK l T) {a b : Ct}
-    (ha : ∀ k, k < a.polys.size → RnsCanon l (a.polys.getD k #[]))
-    (hb : ∀ k, k < b.polys.size → RnsCanon l (b.polys.getD k #[]))
-    (hna : a.ntt = false) (hnb : b.ntt = false) (h1 : 1 ≤ a.polys.size) (h2 : 1 ≤ b.polys.size) :
-    ∃ r, bfvMultiply l T a b = .ok r ∧ r.polys.size = a.polys.size + b.polys.size - 1 ∧ r.ntt = false ∧ r.cf = a.cf ∧
-      (∀ k, k < a.polys.size + b.polys.size - 1 → RnsCanon l (r.polys.getD k #[])) ∧
-      ∀ k, k < a.polys.size + b.polys.size - 1 → ∀ i, i < l.size → ∀ c, c < l.n →
-        r.c02v_res k i c = c02w_mulVal l a b k i c := by
-  obtain ⟨outs, hr, hlen, hv⟩ := c02w_core hm ha hb hna hnb h1 h2
-  refine ⟨_, hr, by simpa using hlen, hna, rfl, fun k hk => ?_, fun k hk i hi c hc => ?_⟩
-  · show RnsCanon l (outs.toArray.getD k #[])
-    rw [c02v_toArray_getD]; exact (hv k hk).1
-  · show ((outs.toArray.getD k #[]).getD i #[]).getD c 0 = _
-    rw [c02v_toArray_getD outs]; exact (hv k hk).2 i hi c hc
-
-/-- W1 for valid BFV ciphertexts: canonical operands with `size a + size b − 1 ≤ 16` give a canonical ciphertext -/
-theorem bfvMultiply_canon {l : Level} {T : Array NTTTables} (hm : MulOK l T) {a b : Ct}
-    (ha : CtCanon l a) (hb : CtCanon l b) (hna : a.ntt = false) (hnb : b.ntt = false)
-    (h16 : a.polys.size + b.polys.size - 1 ≤ 16) :
-    ∃ r, bfvMultiply l T a b = .ok r ∧ CtCanon l r ∧ r.polys.size = a.polys.size + b.polys.size - 1 ∧ r.ntt = false := by
-  have h2a := ha.two_le; have h2b := hb.two_le
-  obtain ⟨r, hr, hsz, hntt, hcf, hcan, _⟩ := bfvMultiply_ok hm ha.canon hb.canon hna hnb (by omega) (by omega)
-  refine ⟨r, hr, ⟨⟨by omega, by omega, fun k hk => hcan k (by omega)⟩, ?_⟩, hsz, hntt⟩
-  rw [hcf]; exact ha.cf
-
-/-- refusal: an operand in NTT form -/
-theorem bfvMultiply_refuse_ntt (l : Level) (T : Array NTTTables) (a b : Ct) (h : a.ntt = true ∨ b.ntt = true) :
-    bfvMultiply l T a b = .error .refused := by
-  rw [c02w_bfvMultiply_eq, if_pos h]
-
-/-- refusal: an operand without polynomials (after the lifts of both operands succeeded) -/
-theorem bfvMultiply_refuse_empty {l : Level} {T : Array NTTTables} (hm : MulOK l T) {a b : Ct}
-    (ha : ∀ k, k < a.polys.size → RnsCanon l (a.polys.getD k #[]))
-    (hb : ∀ k, k < b.polys.size → RnsCanon l (b.polys.getD k #[]))
-    (hna : a.ntt = false) (hnb : b.ntt = false) (h : a.polys.size < 1 ∨ b.polys.size < 1) :
-    bfvMultiply l T a b = .error .refused := by
-  obtain ⟨ab, hA, _, _⟩ := c02w_lift_spec hm ha
-  obtain ⟨bb, hB, _, _⟩ := c02w_lift_spec hm hb
-  rw [c02w_bfvMultiply_eq, if_neg (by simp [hna, hnb]), hA, ok_bind, hB, ok_bind, if_pos h]
 
 /-! ## W2: integer semantics -/
 
@@ -1754,7 +1725,266 @@ theorem c02w_mulVal_int {l : Level} {T : Array NTTTables} (hm : MulOK l T) {a b 
   exact c02w_sk_int hr _ _ c hfl hwinZ i hi
 
 
-/-! ## W2 theorems -/
+/-! ## the window condition from the sizing rule of `RNSTool.new` -/
+
+
+/-- Bernoulli: A^(m+1) − m·d·A^m ≤ A·(A−d)^m for 0 ≤ d ≤ A -/
+theorem c02w_bernoulli {A d : Int} (hd : 0 ≤ d) (hA : d ≤ A) : ∀ m : Nat,
+    A^(m+1) - m * d * A^m ≤ A * (A - d)^m
+  | 0 => by simp
+  | m+1 => by
+    have ih := c02w_bernoulli hd hA m
+    have hA0 : 0 ≤ A := le_trans hd hA
+    have h1 : (A - d) * (A^(m+1) - m * d * A^m) ≤ (A - d) * (A * (A - d)^m) :=
+      mul_le_mul_of_nonneg_left ih (by linarith)
+    have h2 : (0 : Int) ≤ m * d^2 * A^m := by positivity
+    have e1 : A * (A - d)^(m+1) = (A - d) * (A * (A - d)^m) := by ring
+    have e2 : A^(m+1+1) - ((m+1 : Nat) : Int) * d * A^(m+1)
+        = (A - d) * (A^(m+1) - m * d * A^m) - m * d^2 * A^m := by push_cast; ring
+    rw [e1, e2]
+    linarith
+
+/-- products of `m ≤ 64` numbers that are at least `2^61 − 2^54` are at least `2^(61m−1)` -/
+theorem c02w_pow_lower {m : Nat} (hm : m ≤ 64) : 2^(61*m) ≤ 2 * (2^61 - 2^54 : Nat)^m := by
+  have hb := c02w_bernoulli (A := 2^61) (d := 2^54) (by norm_num) (by norm_num) m
+  have hmz : (m : Int) ≤ 64 := by exact_mod_cast hm
+  have hp : (0 : Int) < (2^61 : Int)^m := by positivity
+  have e : ((2:Int)^61)^(m+1) - m * 2^54 * (2^61)^m = (2^61)^m * (2^61 - m * 2^54) := by ring
+  rw [e] at hb
+  have h3 : (2^61 : Int)^m * 2^60 ≤ (2^61)^m * (2^61 - m * 2^54) :=
+    mul_le_mul_of_nonneg_left (by nlinarith) hp.le
+  have h4 : (2^61 : Int)^m * 2^60 ≤ 2^61 * (2^61 - 2^54)^m := le_trans h3 hb
+  have h5 : (2^61 : Int)^m ≤ 2 * (2^61 - 2^54)^m := by nlinarith
+  have h6 : ((2^(61*m) : Nat) : Int) ≤ ((2 * (2^61 - 2^54 : Nat)^m : Nat) : Int) := by
+    push_cast
+    rw [pow_mul]
+    have : (2^61 - 2^54 : Int) = 2287828610704211968 := by norm_num
+    rw [this] at h5
+    exact h5
+  exact_mod_cast h6
+
+theorem c02w_list_prod_ge (l : List Nat) (c : Nat) (h : ∀ x ∈ l, c ≤ x) : c ^ l.length ≤ l.prod := by
+  induction l with
+  | nil => simp
+  | cons a l ih =>
+    simp only [List.length_cons, List.prod_cons, pow_succ]
+    have := ih (fun x hx => h x (by simp [hx]))
+    have := h a (by simp)
+    calc c ^ l.length * c ≤ l.prod * a := Nat.mul_le_mul ‹_› ‹_›
+      _ = a * l.prod := Nat.mul_comm _ _
+
+theorem c02w_base_prod_ge {b : RNSBase} (hb : b.WF) (c : Nat) (h : ∀ i, i < b.size → c ≤ (b.q i).value) :
+    c ^ b.size ≤ b.prod := by
+  rw [hb.prod_eq]
+  have := c02w_list_prod_ge ((List.range b.size).map (fun i => (b.q i).value)) c (by
+    intro x hx
+    simp only [List.mem_map, List.mem_range] at hx
+    obtain ⟨i, hi, rfl⟩ := hx
+    exact h i hi)
+  simpa using this
+
+theorem c02w_base_prod_le {b : RNSBase} (hb : b.WF) : b.prod ≤ (2^61) ^ b.size := by
+  rw [hb.prod_eq]
+  have := RNSH.list_prod_le ((List.range b.size).map (fun i => (b.q i).value)) (2^61) (by
+    intro x hx
+    simp only [List.mem_map, List.mem_range] at hx
+    obtain ⟨i, hi, rfl⟩ := hx
+    exact (hb.mwf i hi).lt.le)
+  simpa using this
+
+/-- the window condition follows from the sizing rule of `RNSTool.new` (|B| = |q| or |q|+1 by the bit counts) when the auxiliary
+    moduli are 61-bit values close to 2^61 (≥ 2^61 − 2^54, as `get_primes(2n, 61, ·)` delivers) and `min(n1,n2)·N ≤ 2^30` -/
+theorem c02w_window_tool {n : Nat} {q : RNSBase} {t : Modulus} {aux : List Modulus} {r : RNSTool}
+    (hq : q.WF) (hq62 : q.size ≤ 62) (ht : t.WF) (htb : t.value < 2^t.bits)
+    (haux : ∀ m ∈ aux, m.WF ∧ 2^61 - 2^54 ≤ m.value) (h : RNSTool.new n q t aux = .ok r) (PN : Nat) (hPN : PN ≤ 2^30) :
+    t.value * PN * r.baseQ.prod + 2 * r.baseQ.size + 2 * r.baseB.size * r.baseB.prod ≤ r.baseB.prod * r.mSk.value := by
+  have ht2 := ht.two_le
+  have ht61 := ht.lt
+  obtain ⟨hr, _, rq, rBsz, rmem⟩ := c02w_toolMulOK_of_new hq hq62 (by omega)
+    (fun m hm => ⟨(haux m hm).1, le_trans (by norm_num) (haux m hm).2⟩) h
+  have hkB64 := hr.bwf.le64
+  have hlast : r.baseB.size < r.baseBsk.size := by rw [hr.bsk_size]; omega
+  have hmsk : 2^61 - 2^54 ≤ r.mSk.value := by
+    have := (haux _ (rmem _ hlast)).2
+    rwa [hr.bsk_last] at this
+  have hBge : (2^61 - 2^54)^r.baseB.size ≤ r.baseB.prod := c02w_base_prod_ge hr.bwf _ (fun i hi => by
+    have := (haux _ (rmem i (by omega))).2
+    rwa [hr.bsk_q i hi] at this)
+  have hB2 : 2^(61 * r.baseB.size) ≤ 2 * r.baseB.prod :=
+    le_trans (c02w_pow_lower hkB64) (Nat.mul_le_mul_left 2 hBge)
+  have hQle : r.baseQ.prod ≤ 2^(61 * r.baseQ.size) := by
+    rw [pow_mul]; exact c02w_base_prod_le hr.qwf
+  rw [rq] at hQle ⊢
+  -- products with literal coefficients only
+  have ha : t.value * PN * q.prod ≤ (t.value * q.prod) * 2^30 := by
+    calc t.value * PN * q.prod = (t.value * q.prod) * PN := by ring
+      _ ≤ (t.value * q.prod) * 2^30 := Nat.mul_le_mul_left _ hPN
+  have hb : 2 * r.baseB.size * r.baseB.prod ≤ 130 * r.baseB.prod := Nat.mul_le_mul_right _ (by omega)
+  have hc : r.baseB.prod * (2^61 - 2^54) ≤ r.baseB.prod * r.mSk.value := Nat.mul_le_mul_left _ hmsk
+  have hE1 : 1 ≤ 2^(61 * q.size) := Nat.one_le_two_pow
+  have hBpos := hr.bwf.prod_pos
+  unfold baseBSize at rBsz
+  split at rBsz
+  · -- |B| = |q| + 1
+    rw [rBsz] at hB2
+    have e : 2^(61 * (q.size + 1)) = 2^61 * 2^(61 * q.size) := by rw [Nat.mul_succ, Nat.pow_add, Nat.mul_comm]
+    rw [e] at hB2
+    have hX : t.value * q.prod ≤ 2^61 * 2^(61 * q.size) := Nat.mul_le_mul ht61.le hQle
+    generalize t.value * q.prod = X at *
+    generalize 2^(61 * q.size) = E at *
+    generalize r.baseB.prod = B at *
+    generalize r.mSk.value = M at *
+    generalize t.value * PN * q.prod = L at *
+    generalize 2 * r.baseB.size * B = L2 at *
+    generalize B * M = BM at *
+    norm_num at *
+    omega
+  · -- |B| = |q|
+    rename_i hcase
+    rw [rBsz] at hB2
+    have hQlt : q.prod < 2^(bitCount q.prod) := (bitCount_le_iff _ _).mp (Nat.le_refl _)
+    have hX : t.value * q.prod < 2^(t.bits + bitCount q.prod) := by
+      rw [Nat.pow_add]
+      exact Nat.mul_lt_mul'' htb hQlt
+    have hpw : 2^(t.bits + bitCount q.prod) ≤ 2^(61 * q.size + 28) := Nat.pow_le_pow_right (by norm_num) (by omega)
+    have e2 : 2^(61 * q.size + 28) = 2^(61 * q.size) * 2^28 := Nat.pow_add _ _ _
+    rw [e2] at hpw
+    clear hQlt htb
+    generalize t.value * q.prod = X at *
+    generalize 2^(t.bits + bitCount q.prod) = Y at *
+    generalize 2^(61 * q.size) = E at *
+    generalize r.baseB.prod = B at *
+    generalize r.mSk.value = M at *
+    generalize t.value * PN * q.prod = L at *
+    generalize 2 * r.baseB.size * B = L2 at *
+    generalize B * M = BM at *
+    norm_num at *
+    omega
+
+
+/-- NON-VACUITY of `c02w_Window` at a level whose tool was built by `RNSTool.new` -/
+theorem c02w_window_of_new {l : Level} {q : RNSBase} {aux : List Modulus}
+    (hq : q.WF) (hq62 : q.size ≤ 62) (ht : l.t.WF) (htb : l.t.value < 2^l.t.bits)
+    (haux : ∀ m ∈ aux, m.WF ∧ 2^61 - 2^54 ≤ m.value) (h : RNSTool.new l.n q l.t aux = .ok l.tool)
+    {n1 n2 : Nat} (hPN : min n1 n2 * l.n ≤ 2^30) : c02w_Window l n1 n2 := by
+  unfold c02w_Window
+  have := c02w_window_tool hq hq62 ht htb haux h (min n1 n2 * l.n) hPN
+  rwa [← Nat.mul_assoc] at this
+
+/-! ## W3 helpers: readings of integer coefficient vectors in a ring with ξ^N = −1 -/
+
+
+/-- reading of an integer coefficient vector in a commutative ring `S` at `ξ` (`ξ^N = −1`: the image of `X`) -/
+def c02w_ev {S : Type} [CommRing S] (n : Nat) (ξ : S) (F : Nat → Int) : S := ∑ c ∈ Finset.range n, ((F c : Int) : S) * ξ^c
+
+theorem c02w_negMulR_cast {S : Type} [CommRing S] (n : Nat) (F G : Nat → Int) (c : Nat) :
+    ((negMulR n F G c : Int) : S) = negMulR n (fun i => ((F i : Int) : S)) (fun i => ((G i : Int) : S)) c := by
+  unfold negMulR
+  rw [Int.cast_sum]
+  apply Finset.sum_congr rfl
+  intro i _
+  split <;> push_cast <;> rfl
+
+theorem c02w_ev_negMul {S : Type} [CommRing S] {n : Nat} (hn : 0 < n) {ξ : S} (hξ : ξ^n = -1) (F G : Nat → Int) :
+    c02w_ev n ξ (negMulR n F G) = c02w_ev n ξ F * c02w_ev n ξ G := by
+  unfold c02w_ev
+  rw [← eval_negMul n hn ξ hξ]
+  apply Finset.sum_congr rfl
+  intro c _
+  rw [c02w_negMulR_cast]
+
+theorem c02w_ev_Z {S : Type} [CommRing S] {n : Nat} (hn : 0 < n) {ξ : S} (hξ : ξ^n = -1) (n1 n2 : Nat)
+    (X Y : Nat → Nat → Int) (k : Nat) :
+    c02w_ev n ξ (c02w_Z n1 n2 n X Y k) =
+      ((mulPairs n1 n2 k).map (fun p => c02w_ev n ξ (X p.1) * c02w_ev n ξ (Y p.2))).sum := by
+  have h1 : c02w_ev n ξ (c02w_Z n1 n2 n X Y k) = ∑ c ∈ Finset.range n,
+      ((mulPairs n1 n2 k).map (fun p => ((negMulR n (X p.1) (Y p.2) c : Int) : S) * ξ^c)).sum := by
+    unfold c02w_ev c02w_Z
+    apply Finset.sum_congr rfl
+    intro c _
+    rw [Int.cast_list_sum, List.map_map, ← List.sum_map_mul_right]
+    rfl
+  rw [h1, c02v_sum_list n (fun p c => ((negMulR n (X p.1) (Y p.2) c : Int) : S) * ξ^c)]
+  congr 1
+  apply List.map_congr_left
+  intro p _
+  exact c02w_ev_negMul hn hξ _ _
+
+theorem c02w_ev_lin {S : Type} [CommRing S] (n : Nat) (ξ : S) (a : Int) (F G : Nat → Int) :
+    c02w_ev n ξ (fun c => a * F c + G c) = (a : S) * c02w_ev n ξ F + c02w_ev n ξ G := by
+  unfold c02w_ev
+  rw [Finset.mul_sum, ← Finset.sum_add_distrib]
+  apply Finset.sum_congr rfl
+  intro c _
+  push_cast
+  ring
+
+theorem c02w_ev_congr {S : Type} [CommRing S] (n : Nat) (ξ : S) {F G : Nat → Int} (h : ∀ c, c < n → F c = G c) :
+    c02w_ev n ξ F = c02w_ev n ξ G := by
+  unfold c02w_ev
+  apply Finset.sum_congr rfl
+  intro c hc
+  rw [h c (Finset.mem_range.mp hc)]
+
+theorem c02w_ev_smul {S : Type} [CommRing S] (n : Nat) (ξ : S) (a : Int) (F : Nat → Int) :
+    c02w_ev n ξ (fun c => a * F c) = (a : S) * c02w_ev n ξ F := by
+  unfold c02w_ev
+  rw [Finset.mul_sum]
+  apply Finset.sum_congr rfl
+  intro c _
+  push_cast
+  ring
+
+
+/-! ## Property theorems -/
+
+/-! ### W1 -/
+
+/-- W1 (totality, shape, closed form).  For coefficient-form operands of ANY sizes ≥ 1 whose polynomials are canonical at a level
+    satisfying `MulOK`, `bfvMultiply` succeeds (no overflow / out-of-range branch is reachable); the result has
+    `size a + size b − 1` canonical polynomials, stays in coefficient form, keeps the correction factor, and every residue is the
+    closed form `c02w_mulVal`. -/
+theorem bfvMultiply_ok {l : Level} {T : Array NTTTables} (hm : MulOK l T) {a b : Ct}
+    (ha : ∀ k, k < a.polys.size → RnsCanon l (a.polys.getD k #[]))
+    (hb : ∀ k, k < b.polys.size → RnsCanon l (b.polys.getD k #[]))
+    (hna : a.ntt = false) (hnb : b.ntt = false) (h1 : 1 ≤ a.polys.size) (h2 : 1 ≤ b.polys.size) :
+    ∃ r, bfvMultiply l T a b = .ok r ∧ r.polys.size = a.polys.size + b.polys.size - 1 ∧ r.ntt = false ∧ r.cf = a.cf ∧
+      (∀ k, k < a.polys.size + b.polys.size - 1 → RnsCanon l (r.polys.getD k #[])) ∧
+      ∀ k, k < a.polys.size + b.polys.size - 1 → ∀ i, i < l.size → ∀ c, c < l.n →
+        r.c02v_res k i c = c02w_mulVal l a b k i c := by
+  obtain ⟨outs, hr, hlen, hv⟩ := c02w_core hm ha hb hna hnb h1 h2
+  refine ⟨_, hr, by simpa using hlen, hna, rfl, fun k hk => ?_, fun k hk i hi c hc => ?_⟩
+  · show RnsCanon l (outs.toArray.getD k #[])
+    rw [c02v_toArray_getD]; exact (hv k hk).1
+  · show ((outs.toArray.getD k #[]).getD i #[]).getD c 0 = _
+    rw [c02v_toArray_getD outs]; exact (hv k hk).2 i hi c hc
+
+/-- W1 for valid BFV ciphertexts: canonical operands with `size a + size b − 1 ≤ 16` give a canonical ciphertext -/
+theorem bfvMultiply_canon {l : Level} {T : Array NTTTables} (hm : MulOK l T) {a b : Ct}
+    (ha : CtCanon l a) (hb : CtCanon l b) (hna : a.ntt = false) (hnb : b.ntt = false)
+    (h16 : a.polys.size + b.polys.size - 1 ≤ 16) :
+    ∃ r, bfvMultiply l T a b = .ok r ∧ CtCanon l r ∧ r.polys.size = a.polys.size + b.polys.size - 1 ∧ r.ntt = false := by
+  have h2a := ha.two_le; have h2b := hb.two_le
+  obtain ⟨r, hr, hsz, hntt, hcf, hcan, _⟩ := bfvMultiply_ok hm ha.canon hb.canon hna hnb (by omega) (by omega)
+  refine ⟨r, hr, ⟨⟨by omega, by omega, fun k hk => hcan k (by omega)⟩, ?_⟩, hsz, hntt⟩
+  rw [hcf]; exact ha.cf
+
+/-- refusal: an operand in NTT form -/
+theorem bfvMultiply_refuse_ntt (l : Level) (T : Array NTTTables) (a b : Ct) (h : a.ntt = true ∨ b.ntt = true) :
+    bfvMultiply l T a b = .error .refused := by
+  rw [c02w_bfvMultiply_eq, if_pos h]
+
+/-- refusal: an operand without polynomials (after the lifts of both operands succeeded) -/
+theorem bfvMultiply_refuse_empty {l : Level} {T : Array NTTTables} (hm : MulOK l T) {a b : Ct}
+    (ha : ∀ k, k < a.polys.size → RnsCanon l (a.polys.getD k #[]))
+    (hb : ∀ k, k < b.polys.size → RnsCanon l (b.polys.getD k #[]))
+    (hna : a.ntt = false) (hnb : b.ntt = false) (h : a.polys.size < 1 ∨ b.polys.size < 1) :
+    bfvMultiply l T a b = .error .refused := by
+  obtain ⟨ab, hA, _, _⟩ := c02w_lift_spec hm ha
+  obtain ⟨bb, hB, _, _⟩ := c02w_lift_spec hm hb
+  rw [c02w_bfvMultiply_eq, if_neg (by simp [hna, hnb]), hA, ok_bind, hB, ok_bind, if_pos h]
+
+/-! ### W2 -/
 
 /-- W2, operands: the lifted coefficient `c02w_liftZ` of a canonical polynomial is congruent to the input residue modulo every
     q_i and satisfies `2·m̃·|X| ≤ Q·(m̃ + 2|q|)` (|X| ≤ Q/2 + |q|·Q/m̃, m̃ = 2^32): the "small BEHZ offset" -/
@@ -1789,5 +2019,106 @@ theorem bfvMultiply_coeff {l : Level} {T : Array NTTTables} (hm : MulOK l T) {a 
   obtain ⟨al, hal, hval⟩ := c02w_mulVal_int hm h1 h2 hwin k hc
   refine ⟨al, by rw [← c02w_base_size hm]; exact hal, fun i hi => ?_⟩
   rw [hv k hk i hi c hc, hval i (by rw [c02w_base_size hm]; exact hi), c02w_base_q hm]
+
+
+/-- W2 with every hypothesis discharged from the model's constructors: level tables well formed, tool built by `RNSBase.new` +
+    `RNSTool.new` (auxiliary moduli well formed and ≥ 2^61 − 2^54), Bsk tables built by `NTTTables.new`, `min(n1,n2)·N ≤ 2^30` -/
+theorem bfvMultiply_coeff_of_new {l : Level} {T : Array NTTTables} {q : RNSBase} {aux : List Modulus}
+    (hl : l.WF) (hlen : l.qs.size ≤ 62) (hk : l.k ≤ 60) (ht : l.t.WF) (htb : l.t.value < 2^l.t.bits)
+    (haux : ∀ m ∈ aux, m.WF ∧ 2^61 - 2^54 ≤ m.value)
+    (hq : RNSBase.new l.qs.toList = .ok q) (h : RNSTool.new l.n q l.t aux = .ok l.tool)
+    (hT : ∀ i, i < l.tool.baseBsk.size → ∃ pr root0, root0 < 2^64 ∧
+      NTTTables.new l.k (l.tool.baseBsk.q i) pr root0 = .ok (T.getD i default))
+    {a b r : Ct}
+    (ha : ∀ k, k < a.polys.size → RnsCanon l (a.polys.getD k #[]))
+    (hb : ∀ k, k < b.polys.size → RnsCanon l (b.polys.getD k #[]))
+    (hna : a.ntt = false) (hnb : b.ntt = false) (h1 : 1 ≤ a.polys.size) (h2 : 1 ≤ b.polys.size)
+    (hPN : min a.polys.size b.polys.size * l.n ≤ 2^30) (hr : bfvMultiply l T a b = .ok r) :
+    ∀ k, k < a.polys.size + b.polys.size - 1 → ∀ c, c < l.n → ∃ al : Nat, al < l.size ∧ ∀ i, i < l.size →
+      (r.c02v_res k i c : Int) =
+        ((l.t.value : Int) * c02w_Z a.polys.size b.polys.size l.n
+            (fun x j => c02w_liftZ l.tool (a.polys.getD x #[]) j) (fun y j => c02w_liftZ l.tool (b.polys.getD y #[]) j) k c
+          / l.tool.baseQ.prod - al) % (l.q i).value := by
+  have haux' : ∀ m ∈ aux, m.WF ∧ 2^32 ≤ m.value := fun m hm => ⟨(haux m hm).1, le_trans (by norm_num) (haux m hm).2⟩
+  have hm := c02w_mulOK_of_new hl hlen hk ht haux' hq h hT
+  have hmw : ∀ m ∈ l.qs.toList, m.WF := by
+    intro m hm'
+    obtain ⟨i, hi, rfl⟩ := Array.mem_iff_getElem.mp (Array.mem_toList_iff.mp hm')
+    have := (c01o_level_comp hl (i := i) hi).2.2.2
+    unfold Level.q at this
+    simpa [Array.getD, hi] using this
+  obtain ⟨hqwf, hqbase⟩ := RNSBase.new_wf hmw (by simpa using (by omega : l.qs.size ≤ 64)) hq
+  have hqs : q.size ≤ 62 := by unfold RNSBase.size; rw [hqbase]; simpa using hlen
+  exact bfvMultiply_coeff hm ha hb hna hnb h1 h2 (c02w_window_of_new hqwf hqs ht htb haux h hPN) hr
+
+/-! ### W3 -/
+
+/-- W3 (ring form).  In ANY commutative ring `S` with an element `ξ`, `ξ^N = −1` (e.g. `ℤ[X]/(X^N+1)` or `ℤ_Q[X]/(X^N+1)`) and for ANY
+    secret `s ∈ S`: there are integer polynomials `D_k` (the exact lifts of the output polynomials: every residue the model returns
+    is `D_k[c] mod q_i`) and `E_k` with `0 ≤ E_k[c] < |q|·Q` such that
+    `Q · phase_s(D) + phase_s(E) = t · phase_s(X) · phase_s(Y)`, i.e. `phase(result) = (t·phase(X)·phase(Y) − phase_s(E))/Q`,
+    where `X`, `Y` are the lifted operands of `bfvLift_spec` (≡ the inputs modulo every q_i, size ≤ Q/2 + |q|Q/2^32). -/
+theorem bfvMultiply_phase {S : Type} [CommRing S] {l : Level} {T : Array NTTTables} (hm : MulOK l T) {a b r : Ct}
+    (ha : ∀ k, k < a.polys.size → RnsCanon l (a.polys.getD k #[]))
+    (hb : ∀ k, k < b.polys.size → RnsCanon l (b.polys.getD k #[]))
+    (hna : a.ntt = false) (hnb : b.ntt = false) (h1 : 1 ≤ a.polys.size) (h2 : 1 ≤ b.polys.size)
+    (hwin : c02w_Window l a.polys.size b.polys.size) (hr : bfvMultiply l T a b = .ok r)
+    (ξ s : S) (hξ : ξ^l.n = -1) :
+    ∃ D E : Nat → Nat → Int,
+      (∀ k, k < a.polys.size + b.polys.size - 1 → ∀ c, c < l.n → ∀ i, i < l.size →
+        (r.c02v_res k i c : Int) ≡ D k c [ZMOD (l.q i).value]) ∧
+      (∀ k, k < a.polys.size + b.polys.size - 1 → ∀ c, c < l.n →
+        0 ≤ E k c ∧ E k c < (l.size : Int) * l.tool.baseQ.prod) ∧
+      ((l.tool.baseQ.prod : Int) : S) * ctPhase (a.polys.size + b.polys.size - 1) (fun k => c02w_ev l.n ξ (D k)) s
+        + ctPhase (a.polys.size + b.polys.size - 1) (fun k => c02w_ev l.n ξ (E k)) s
+        = ((l.t.value : Int) : S) *
+          (ctPhase a.polys.size (fun x => c02w_ev l.n ξ (fun j => c02w_liftZ l.tool (a.polys.getD x #[]) j)) s *
+           ctPhase b.polys.size (fun y => c02w_ev l.n ξ (fun j => c02w_liftZ l.tool (b.polys.getD y #[]) j)) s) := by
+  have hcoeff := bfvMultiply_coeff hm ha hb hna hnb h1 h2 hwin hr
+  choose! al hal hval using hcoeff
+  have hn0 : 0 < l.n := by rw [hm.lwf.npow]; exact Nat.pos_of_ne_zero (by positivity)
+  have hQpos : (0 : Int) < (l.tool.baseQ.prod : Int) := by exact_mod_cast hm.tool.qwf.prod_pos
+  generalize hZdef : c02w_Z a.polys.size b.polys.size l.n
+      (fun x j => c02w_liftZ l.tool (a.polys.getD x #[]) j) (fun y j => c02w_liftZ l.tool (b.polys.getD y #[]) j) = Z at hval
+  refine ⟨fun k c => (l.t.value : Int) * Z k c / l.tool.baseQ.prod - al k c,
+    fun k c => (l.t.value : Int) * Z k c
+      - (l.tool.baseQ.prod : Int) * ((l.t.value : Int) * Z k c / l.tool.baseQ.prod - al k c), ?_, ?_, ?_⟩
+  · intro k hk c hc i hi
+    rw [hval k hk c hc i hi]
+    exact Int.mod_modEq _ _
+  · intro k hk c hc
+    have e1 := Int.emod_add_mul_ediv ((l.t.value : Int) * Z k c) l.tool.baseQ.prod
+    have e2 := Int.emod_nonneg ((l.t.value : Int) * Z k c) (ne_of_gt hQpos)
+    have e3 := Int.emod_lt_of_pos ((l.t.value : Int) * Z k c) hQpos
+    have e4 : (al k c : Int) + 1 ≤ l.size := by exact_mod_cast hal k hk c hc
+    have e5 : (0 : Int) ≤ (al k c : Int) := by positivity
+    have e6 : (l.tool.baseQ.prod : Int) * (al k c : Int) ≤ (l.tool.baseQ.prod : Int) * ((l.size : Int) - 1) :=
+      mul_le_mul_of_nonneg_left (by linarith) hQpos.le
+    have e7 : (0 : Int) ≤ (l.tool.baseQ.prod : Int) * (al k c : Int) := mul_nonneg hQpos.le e5
+    constructor <;> nlinarith
+  · have hk : ∀ k, ((l.tool.baseQ.prod : Int) : S) *
+          c02w_ev l.n ξ (fun c => (l.t.value : Int) * Z k c / l.tool.baseQ.prod - al k c)
+        + c02w_ev l.n ξ (fun c => (l.t.value : Int) * Z k c
+            - (l.tool.baseQ.prod : Int) * ((l.t.value : Int) * Z k c / l.tool.baseQ.prod - al k c))
+        = ((l.t.value : Int) : S) * c02w_ev l.n ξ (Z k) := by
+      intro k
+      rw [← c02w_ev_lin, ← c02w_ev_smul]
+      apply c02w_ev_congr
+      intro c _
+      ring
+    have hmul := ct_mul_phase (R := S) h1 h2
+      (fun x => c02w_ev l.n ξ (fun j => c02w_liftZ l.tool (a.polys.getD x #[]) j))
+      (fun y => c02w_ev l.n ξ (fun j => c02w_liftZ l.tool (b.polys.getD y #[]) j)) s
+    rw [← hmul]
+    unfold ctPhase
+    rw [Finset.mul_sum, Finset.mul_sum, ← Finset.sum_add_distrib]
+    apply Finset.sum_congr rfl
+    intro k _
+    have hz := c02w_ev_Z hn0 hξ a.polys.size b.polys.size
+      (fun x j => c02w_liftZ l.tool (a.polys.getD x #[]) j) (fun y j => c02w_liftZ l.tool (b.polys.getD y #[]) j) k
+    rw [hZdef] at hz
+    beta_reduce at hz ⊢
+    rw [← hz, ← mul_assoc, ← mul_assoc, ← add_mul, hk k]
+
 
 end HC
